@@ -30,3 +30,7 @@ def rules(ctx):
     S.c01_r2_grow(ctx)
     S.root_pair_rules(ctx)
     S.tree_root_update_rules(ctx)
+    S.flush_take_rules(ctx)
+    S.oldest_search_rules(ctx)
+    S.full_range_rules(ctx)
+    S.c12_tree_rules(ctx)
